@@ -6,6 +6,9 @@
 (*                                                                           *)
 (* Events                                                                    *)
 (*   Pair      g1, g2, calls        every public function, both orders       *)
+(*             (lengths and results in units of 2^sexp / 4: the harness       *)
+(*             divides the power of two out exactly)                         *)
+(*   BigPair   g1, g2, calls        lengths hi * 2^32 + len / 4              *)
 (*   Triple    g1, g2, g3, calls    the three pairs (field pr = 12, 23, 13)  *)
 (*   NsRefusal g1, g2, calls        equal trees over two namespace objects,  *)
 (*             every function x flag value x none / one / both encoded       *)
@@ -112,6 +115,37 @@ JudgePair(e) ==
              jc(c) == JudgeValue(c, IF c.ord = 1 THEN r12 ELSE r21, ClauseOf(c.kind), "")
          IN CatAll([i \in 1..Len(e.calls) |-> jc(e.calls[i])]) \o SymClauses(e.calls, g1, g2, r12.late)
 
+\* ------------------------------------------------------------ BigPair: large lengths, small differences
+\* graphs carry hi (multiples of the base 2^32) next to len (the rest in quarter units); a weighted result is
+\* n = <<num, den, exact, hi, negative>> (value = hi * base +- num/den), z = "the returned float is 0";
+\* for the Euclidean distance num/den is the square of the value and is given when hi = 0
+SmallPart(n, scale) == LET v == IntOf(<<n[1], n[2], n[3]>>, scale) IN IF n[5] = 1 THEN -v ELSE v
+JudgeBigPair(e) ==
+    LET g1 == e.g1  g2 == e.g2  pre == InputsOk(<<g1, g2>>) IN
+    IF pre # None THEN pre
+    ELSE LET l1 == Enc(g1)  l2 == Enc(g2)  h1 == Enc(HiGraph(g1))  h2 == Enc(HiGraph(g2))
+             same == h1 = h2 /\ l1 = l2               \* the same weighted tree (no edge of length 0 here)
+             big == WRFBig(h1, l1, h2, l2)             \* symmetric in the two trees
+             samehi == SameHi(h1, h2)
+             e2 == Euclid2e(l1, l2)
+             jc(c) ==
+               IF c.raised # "" THEN V(ClauseOf(c.kind), c.api \o ":large_lengths:raised:" \o c.raised)
+               ELSE (IF c.z # same THEN V("C04.ZeroIffSameTree", c.api \o ":large_lengths") ELSE None)
+                 \o (IF Len(c.n) # 5 THEN V(ClauseOf(c.kind), c.api \o ":large_lengths")
+                     ELSE IF c.kind = "wrf"
+                       THEN (IF IntOf(<<c.n[1], c.n[2], c.n[3]>>, LScale) >= 0 /\ <<c.n[4], SmallPart(c.n, LScale)>> = big
+                               THEN None ELSE V(ClauseOf(c.kind), c.api \o ":large_lengths"))
+                     \* the exact Euclidean value is decidable when the large parts cancel split by split
+                     ELSE IF samehi
+                       THEN (IF c.n[4] = 0 /\ IntOf(<<c.n[1], c.n[2], c.n[3]>>, LScale * LScale) = e2
+                               THEN None ELSE V(ClauseOf(c.kind), c.api \o ":large_lengths"))
+                     ELSE None)
+             sym(c, d) == IF c.api # d.api \/ c.ord # 1 \/ d.ord # 2 THEN V("C04.Chain", "calls not logged in mirrored pairs")
+                          ELSE IF c.raised = "" /\ d.raised = "" /\ (c.n # d.n \/ c.z # d.z) THEN V("C04.Symmetric", c.api \o ":large_lengths")
+                          ELSE None
+         IN CatAll([i \in 1..Len(e.calls) |-> jc(e.calls[i])])
+            \o CatAll([k \in 1..(Len(e.calls) \div 2) |-> sym(e.calls[2 * k - 1], e.calls[2 * k])])
+
 \* ------------------------------------------------------------ Triple: definitions + triangle inequality on the observed values
 Obs(calls, api, pr) == LET m == {c \in SeqToSet(calls) : c.api = api /\ c.pr = pr} IN
                        IF m = {} THEN -1 ELSE LET c == CHOOSE c \in m : TRUE IN
@@ -197,6 +231,7 @@ Chain(e) == IF e.action \in HistActions /\ e.step > 1 /\ [k \in {"g1", "g2", "c1
               THEN V("C04.Chain", "state changed between logged calls") ELSE None
 
 Judge(e) == CASE e.action = "Pair" -> JudgePair(e)
+              [] e.action = "BigPair" -> JudgeBigPair(e)
               [] e.action = "Triple" -> JudgeTriple(e)
               [] e.action = "NsRefusal" -> JudgeNs(e)
               [] e.action = "Dist" -> JudgeDist(e, PriorClean(e))
